@@ -25,7 +25,7 @@ ASSUMPTIONS = [
 COMPONENTS = {'real': ['yldprolog.engine unify/Variable/Atom/Functor/unify_arrays', 'CPython generators, refcount finalisation'],
               'stub': ['consumer (seeded scheduler holding the generators)'],
               'oracle': ['Robinson unifier over tuple terms with substitution stack (ypsim.terms)']}
-REQUIRED_PROBES = ('push_under_long_chain', 'started_under_more_bindings_than_created', 'atoms_of_another_engine', 'push_ok', 'push_fail', 'push_under_bindings', 'pop_close', 'pop_drop', 'pop_resume', 'pop_throw', 'fault_recursion_inside_unify', 'fault_boundvar', 'swap_trial')
+REQUIRED_PROBES = ('push_of_kept_term', 'push_of_big_terms', 'push_under_long_chain', 'started_under_more_bindings_than_created', 'atoms_of_another_engine', 'push_ok', 'push_fail', 'push_under_bindings', 'pop_close', 'pop_drop', 'pop_resume', 'pop_throw', 'fault_recursion_inside_unify', 'fault_boundvar', 'swap_trial')
 
 
 def gen(seed, tier):
@@ -49,18 +49,36 @@ def gen(seed, tier):
             ops.append(['PUSH', ['v', order[-1]], ['a', val], rng.random() < 0.3])
             ops.append(['POP', rng.choice(('close', 'drop', 'resume', 'throw'))])
         ops.append(['PUSH', ['v', order[0]], ['a', 'b'], True])
+    big = rng.random() < 0.1
+    if big:
+        nv = max(nv, 3)
     for _ in range(rng.randrange(1, 26 * (2 if tier == 'thorough' else 1))):
         k = rng.random()
-        if k < 0.06:
+        if big and k < 0.3:
+            # big terms (long lists, wide and deep structures): size-dependent paths of the unifier
+            t1, t2 = TM.big_pair(rng, nv + 1)
+            if rng.random() < 0.5:
+                t1, t2 = t2, t1
+            ops.append(['PUSH', TM.J(t1), TM.J(t2), rng.random() < 0.3, rng.random() < 0.1])
+            continue
+        if k < 0.03:
+            # a term built once and kept by the consumer; later unifications use the same object again
+            ops.append(['KEEP', TM.J(TM.big_pair(rng, nv + 2)[0] if big and rng.random() < 0.6 else TM.rnd_term(rng, nv + 2, depth, p_leaf=0.15, lists=lists))])
+            continue
+        if k < 0.09:
+            t2 = TM.rnd_term(rng, nv + 2, depth, lists=lists)
+            ops.append(['PUSHK', rng.randrange(4), TM.J(t2), rng.random() < 0.3, rng.choice(('near', 'near', 'var', 'given'))])
+            continue
+        if k < 0.12:
             ops.append(['NEWVAR'])
-        elif k < 0.1:
+        elif k < 0.16:
             t1 = TM.rnd_term(rng, nv + 2, depth, lists=lists)
             ops.append(['CREATE', TM.J(t1), TM.J(TM.mutate(rng, t1, nv + 2, depth)), rng.random() < 0.2])
-        elif k < 0.15:
+        elif k < 0.21:
             ops.append(['START', rng.randrange(3)])
-        elif k < 0.17:
+        elif k < 0.23:
             ops.append(['FAULT', rng.choice(('list', 'nest')), rng.choice(('terms', 'boundvar', 'boundvar')), rng.randrange(nv)])
-        elif k < 0.06 + p_pop:
+        elif k < 0.12 + p_pop:
             ops.append(['POP', rng.choice(('close', 'drop', 'resume', 'throw'))])
         else:
             t1 = TM.rnd_term(rng, nv + 2, depth, lists=lists)
@@ -80,12 +98,23 @@ def sample_view(plan):
         if op[0] == 'PUSH':
             out.append('PUSH %s = %s%s%s' % (TM.show(TM.T(op[1])), TM.show(TM.T(op[2])), ' +swap-trial' if op[3] else '',
                                              ' +atoms-of-another-engine' if len(op) > 4 and op[4] else ''))
+        elif op[0] == 'KEEP':
+            out.append('KEEP %s (built once, used by later PUSHK)' % TM.show(TM.T(op[1])))
+        elif op[0] == 'PUSHK':
+            out.append('PUSHK kept#%d = %s%s' % (op[1], {'near': '<copy of the kept term with its last leaf replaced by %s>' % TM.show(TM.T(op[2])), 'var': '_V0', 'given': TM.show(TM.T(op[2]))}[op[4]], ' +swap-trial' if op[3] else ''))
         elif op[0] == 'CREATE':
             out.append('CREATE %s = %s%s (generator made now, started later)' % (TM.show(TM.T(op[1])), TM.show(TM.T(op[2])),
                                                                               ' +atoms-of-another-engine' if op[3] else ''))
         else:
             out.append(' '.join(map(str, op)))
     return {'pool_variables': plan['nv'], 'history': out}
+
+
+def replace_last_leaf(t, leaf):
+    """t with its last leaf (depth-first, last argument first) replaced"""
+    if t[0] != 'f' or not t[2]:
+        return leaf
+    return ('f', t[1], t[2][:-1] + (replace_last_leaf(t[2][-1], leaf),))
 
 
 def execute(plan):
@@ -98,6 +127,7 @@ def execute(plan):
     pool2.vars = pool.vars          # same variable objects, other atom store
     s = {}
     stack = []      # (task, substitution before)
+    kept = []       # (model term, engine term) built by KEEP
     pending = []    # generators made by CREATE and not started yet: dict(gen, t1, t2, e1, e2, depth)
 
     def build2(t, foreign):
@@ -122,6 +152,8 @@ def execute(plan):
             log.count('push_under_long_chain')
         if foreign:
             log.count('atoms_of_another_engine')
+        if TM.size(r1) > 40 and TM.size(r2) > 40:
+            log.count('push_of_big_terms')
         trial = None
         if swap:
             # symmetric trial: unify(t2, t1), observe, undo
@@ -208,6 +240,31 @@ def execute(plan):
                     continue
                 e1, e2 = pool.build(t1), build2(t2, foreign)
                 if not judge(t1, t2, e1, e2, lambda: unify(e1, e2), op[3], foreign, 'push'):
+                    break
+            elif op[0] == 'KEEP':
+                if len(kept) < 4:
+                    t = pool.norm(TM.T(op[1]))
+                    kept.append((t, pool.build(t)))
+                    log.count('term_kept')
+                log.ev('keep')
+            elif op[0] == 'PUSHK':
+                if not kept or len(stack) >= plan.get('max_depth', 6):
+                    log.ev('push-noop')
+                    continue
+                t1, e1 = kept[op[1] % len(kept)]
+                if op[4] == 'near':
+                    t2 = replace_last_leaf(t1, pool.norm(TM.T(op[2])))
+                elif op[4] == 'var':
+                    t2 = ('v', 0)
+                else:
+                    t2 = pool.norm(TM.T(op[2]))
+                if TM.munify_any_order_cyclic(t1, t2, s):
+                    log.count('skipped_cyclic')
+                    log.ev('skip-cyclic')
+                    continue
+                e2 = pool.build(t2)
+                log.count('push_of_kept_term')
+                if not judge(t1, t2, e1, e2, lambda: unify(e1, e2), op[3], False, 'push-kept'):
                     break
             elif op[0] == 'FAULT':
                 # Depth fault: the interpreter raises RecursionError in the middle of a unification or of a
@@ -297,7 +354,7 @@ def simplify(plan):
             c = dict(plan)
             c['ops'] = plan['ops'][:k] + [op[:3] + [False]] + plan['ops'][k + 1:]
             yield c
-    yield from simplify_ops_terms(plan, {'PUSH': (1, 2), 'CREATE': (1, 2)})
+    yield from simplify_ops_terms(plan, {'PUSH': (1, 2), 'CREATE': (1, 2), 'KEEP': (1,), 'PUSHK': (2,)})
 
 
 def witness(plan, viol):
